@@ -58,16 +58,15 @@ class Filter(base.Filter):
         elif tagname == 'body':
             # A body element's start tag may be omitted if the first thing
             # inside the body element is not a space character or a comment,
-            # except if the first thing inside the body element is a script
-            # or style element and the node immediately preceding the body
-            # element is a head element whose end tag has been omitted.
+            # except if the first thing inside the body element is a meta,
+            # link, script, style, or template element.
             if type in ("Comment", "SpaceCharacters"):
                 return False
-            elif type == "StartTag":
-                # XXX: we do not look at the preceding event, so we never omit
-                # the body element's start tag if it's followed by a script or
-                # a style element.
-                return next["name"] not in ('script', 'style')
+            elif type in ("StartTag", "EmptyTag"):
+                # Without the body start tag these elements would be parsed
+                # as part of the head.
+                return next["name"] not in ('meta', 'link', 'script',
+                                            'style', 'template')
             else:
                 return True
         elif tagname == 'colgroup':
